@@ -737,8 +737,7 @@ func c01Closest(c *Ctx) {
 				continue
 			}
 			n++
-			call, isCall := p.Parent(acc.Sel).(*ast.CallExpr)
-			ok := isCall && eng.CalleeName(info, call) == "(*dht/netsize.Estimator).Track"
+			ok := flowsOnlyInto(p, info, acc.Sel, "(*dht/netsize.Estimator).Track")
 			c.Check(K(f.Name, "reads result.closest"), acc.Sel.Pos(), ok, "the list that includes failed peers is used only for network-size tracking", "result.closest used outside Estimator.Track")
 		}
 	}
